@@ -186,7 +186,7 @@ def step (st : Option Tree) (line : String) : Option Tree × String :=
   | .ok .unsnappable => (st, "unsnappable")
   | .ok (.read srcs ka left px) => match st with
       | some t =>
-        let flipX : Vec → Vec := fun a => ⟨-a.x, a.y, a.z⟩
+        let flipX : Vec → Vec := V3.flipX
         match t.ownTensor flipX (srcs.map fun s => (s.1, fun x => s.2.1 • x + s.2.2)) ka px [px.length] left with
         | some B => (st, s!"read {B.length} | " ++ " | ".intercalate (B.map fun row => " ".intercalate (row.map fmtV)))
         | none => (st, "read no-such-address")
